@@ -573,11 +573,17 @@ def check_iter(w, st, out):
 
 def alter(raw):
     """well-formed variants of a raw node whose hash differs"""
+    outs = _alter(raw)
+    return [o for o in outs if o != list(raw)]
+
+
+def _alter(raw):
     outs = []
     if len(raw) == 2:
         if isinstance(raw[1], bytes):
             outs.append([raw[0], raw[1] + b"x"])
-            outs.append([raw[0], b"y" * max(1, len(raw[1]))])
+            # same length, every byte different from the original (never the original node itself)
+            outs.append([raw[0], bytes((x ^ 0x55) for x in raw[1]) or b"\x55"])
         p = bytearray(raw[0])
         p[-1] ^= 1
         outs.append([bytes(p), raw[1]])
